@@ -2,6 +2,7 @@ import Driver.Util
 import Sqfs.Model.Path
 import Sqfs.Spec.HardLink
 import Sqfs.Model.TextParse
+import Sqfs.Model.C07Lines
 namespace Driver.C07
 open Sqfs.HardLink
 
@@ -192,11 +193,63 @@ def parserStep : List String → Option String
 
 end Parsers
 
+/-! ### `gl`: a whole text input through `istream_get_line` -/
+
+/-- content tokens: `h<hex>` literal bytes, `r<count>x<hh>` a run of one byte -/
+def contentTok (t : String) : Option (List UInt8) :=
+  if t.startsWith "h" then fromHex (t.drop 1).toString
+  else if t.startsWith "r" then
+    match ((t.drop 1).toString.splitOn "x") with
+    | [c, b] => do
+      let n ← c.toNat?
+      let bs ← fromHex b
+      match bs with
+      | [x] => if n ≤ 67108864 then some (List.replicate n x) else none
+      | _ => none
+    | _ => none
+  else none
+
+def fnvByte (h : UInt64) (b : UInt8) : UInt64 := (h ^^^ b.toUInt64) * 1099511628211
+
+def fnvLines (ls : List (List UInt8 × Nat)) : UInt64 :=
+  ls.foldl (fun h (l : List UInt8 × Nat) =>
+    let h := l.1.foldl fnvByte h
+    let h := fnvByte h 10
+    let h := (toString l.2).toUTF8.foldl fnvByte h
+    fnvByte h 10) 1469598103934665603
+
+def hex16 (v : UInt64) : String :=
+  let s := String.ofList (Nat.toDigits 16 v.toNat)
+  String.ofList (List.replicate (16 - s.length) '0') ++ s
+
+def errNum : Sqfs.IoLoops.Err → String
+  | .ok => "0" | .io => "3" | .oob => "8" | .compressor => "4" | .fuel => "fuel"
+
+def showLines (r : Sqfs.C07Lines.Lines) : String :=
+  match r.err with
+  | some .fuel => "spin"
+  | some e => "fail " ++ errNum e
+  | none => "ok " ++ toString r.lines.length ++ " " ++ toString r.lineNum ++ " " ++
+      toString (r.lines.foldl (fun a l => a + l.1.length) 0) ++ " " ++ hex16 (fnvLines r.lines)
+
+def glStep (spec : Bool) : List String → String
+  | b :: f :: toks =>
+    match b.toNat?, f.toNat?, toks.mapM contentTok with
+    | some B, some flags, some parts =>
+      if B = 0 then "bad-op"
+      else
+        let data := parts.foldr (· ++ ·) []
+        showLines (if spec then Sqfs.C07Lines.specFile flags data else Sqfs.C07Lines.readFile B flags data)
+    | _, _, _ => "bad-op"
+  | _ => "bad-op"
+
 def step (line : String) : String :=
   match parserStep (words line) with
   | some r => r
   | none =>
   match words line with
+  | "gl" :: toks => glStep false toks
+  | "glspec" :: toks => glStep true toks
   | "hl" :: toks => hlStep none toks
   | "hlspec" :: toks => hlSpec toks
   | "hlcur" :: f :: toks => match f.toNat? with
